@@ -16,7 +16,7 @@ claim("C02",
  "ODS width 2. Not covered: the cached-node proof producer (share/ipld, eds/proofs_cache.go).")
 
 claim("C06",
- "Bounded exploration, by symbolic execution of the real getter code, of every fault sequence within the bound: the real shrex getter (GetSamples with its errgroup, GetRow, executeRequest) with up to 3 attempts per request, each attempt's outcome arbitrary (deadline, cancel, NOT_FOUND, resource exhausted, invalid response, other, or a decoded response that does / does not verify), the caller's context ending after any attempt and peer selection failing: every non-empty container in the returned value - with or without an error - verified; success means every requested item; all-NOT_FOUND is reported as shwap.ErrNotFound. RangeNamespaceData.ReadFrom into a reused value equals decoding into a fresh one for all pairs of 1..3-row responses (symbolic proof ranges). The cascade returns the first error-free result and never data next to an error. Fetch does not panic with either block store a node type wires it to (plain store / real EDS-store-backed Blockstore).",
+ "Bounded exploration, by symbolic execution of the real getter code, of every fault sequence within the bound: the real shrex getter (GetSamples with its errgroup, GetRow, executeRequest) with up to 3 attempts per request, each attempt's outcome arbitrary (deadline, cancel, NOT_FOUND, resource exhausted, invalid response, other, or a decoded response that does / does not verify), the caller's context ending after any attempt and peer selection failing: every non-empty container in the returned value - with or without an error - verified; success means every requested item; all-NOT_FOUND is reported as shwap.ErrNotFound. RangeNamespaceData.ReadFrom into a reused value equals decoding into a fresh one for all pairs of 1..3-row responses (symbolic proof ranges). The cascade returns the first error-free result and never data next to an error. Fetch does not panic with either block store a node type wires it to (plain store / real EDS-store-backed Blockstore). The real bitswap Getter (GetSamples for 2 coordinates, GetRow) with its session pool, Fetch, hasher and block UnmarshalFn under an exchange that delivers 0..2 blocks per CID, verifying or not, in any order, with the context ending at any point: every returned sample/row came from a block that verified and is for the requested coordinate; success means everything requested.",
  "symbolic execution of go/ssa with fault outcomes as explored decisions (goroutines under the cooperative scheduler); SMT for the symbolic parts (proof ranges, response bytes)",
  "DESIGN.md 6/C06",
  "Client.Get, peer selection and the containers' Verify are models (C01 covers the real verifiers). Not covered: GetEDS/GetNamespaceData/GetRangeNamespaceData flows of the shrex getter beyond the shared executeRequest, real libp2p/bitswap.")
@@ -28,10 +28,10 @@ claim("C09",
  "Not covered: the client's status mapping (doRequest), rate limiter, real libp2p streams; that the served containers equal the requested data is C01 (honest containers verify) + C05.")
 
 claim("C10",
- "Bounded symbolic model checking of the bitswap identifier/CID mapping with the real go-cid, go-multihash and go-varint code on symbolic bytes: for sample, row and range blocks every constructor-accepted id (all fields symbolic) maps to a CID that decodes back to the same id, and two accepted ids with equal CIDs are equal (injective; this is where the 16-bit range id collided before the fix). For the sample block the real hasher.write is run on an ARBITRARY inner CID byte string (length of the requested CID -1..+1): it succeeds only if the inner CID is byte-for-byte the requested one and the container verdict is positive, the container is verified with the requester's roots and the requested coordinates, the digest is the requested id, and a rejected block leaves the request unfulfilled.",
+ "Bounded symbolic model checking of the bitswap identifier/CID mapping with the real go-cid, go-multihash and go-varint code on symbolic bytes: for sample, row and range blocks every constructor-accepted id (all fields symbolic) maps to a CID that decodes back to the same id, and two accepted ids with equal CIDs are equal (injective; this is where the 16-bit range id collided before the fix). For the sample block the real hasher.write is run on an ARBITRARY inner CID byte string (length of the requested CID -1..+1): it succeeds only if the inner CID is byte-for-byte the requested one and the container verdict is positive, the container is verified with the requester's roots and the requested coordinates, the digest is the requested id, and a rejected block leaves the request unfulfilled. The same for the row, row-namespace-data and range blocks (range: inner CID of an arbitrary other valid range id), including a second block for the same CID after a rejected one, which must be verified too.",
  "symbolic execution of go/ssa (repository + go-cid/go-multihash/go-varint) + SMT; envelope/container protobuf decode and Sample.Verify are ideal verdicts",
  "DESIGN.md 6/C10",
- "Not covered: row-namespace-data block, two concurrent fetches of one CID, the serving side's Populate (C05/C09).")
+ "Not covered: two concurrent fetches of one CID, the serving side's Populate (C05/C09).")
 
 claim("C12",
  "Bounded symbolic model checking of the proof glue the node owns: blob Proof.equal on two arbitrary proofs (0..2 entries, nil entries, 0..2 nodes, symbolic ranges and bytes) answers nil exactly for structurally equal proofs and never panics; GetRangeResult.Verify on arbitrary results (missing proof, 0..3 data entries of 511..513 symbolic bytes) answers nil only when the shares handed out are byte-for-byte the proven data; data-root-tuple proofs for arbitrary 64-bit height/start/end/head pick leaf height-start among exactly end-start leaves whose encoding carries the height in the last 8 of 32 bytes for every 64-bit height. Library proof verification (nmt, merkle, cometbft) is an ideal verdict.",
